@@ -49,9 +49,11 @@ def rule_ident(ctx: Ctx) -> RuleResult:
             continue
         sides = {(_attr_of(v.left, "self"), _attr_of(v.comparators[0], other)), (_attr_of(v.comparators[0], "self"), _attr_of(v.left, other))}
         from ..effects import Effects
-        tests = ctx.ef._dominating_tests(cfg_flow.cfg, r)
-        under_isinstance = [lab for t, lab in tests if isinstance(t, ast.Call) and dotted(t.func) == "isinstance"
-                            and t.args and isinstance(t.args[0], ast.Name) and t.args[0].id == other]
+        from ..shape import fact_nodes_at
+
+        under_isinstance = ["true" if truth else "false" for t, truth in fact_nodes_at(ctx, eq, r)
+                            if isinstance(t, ast.Call) and dotted(t.func) == "isinstance" and t.args and isinstance(t.args[0], ast.Name)
+                            and t.args[0].id == other]
         if ("uri", "uri") in sides:
             if under_isinstance == ["true"]:
                 sid_branch_ok = True
